@@ -29,6 +29,8 @@ type PropSpec struct {
 	ThorSecs  int
 	// race pass (optional): runs on a worker built with the race detector, after the main pass
 	RaceQuick, RaceThor int
+	// RaceFiles, when set, narrows the race pass to a subset of the property's anchored files (DESIGN 11.12 says why)
+	RaceFiles []string
 	Rule                string
 	Assume              []string
 	Profiles            []string // profiles cycled over jobs ("" = scenario decides from the tape)
@@ -300,6 +302,9 @@ func cmdCheck(args []string) int {
 			j := &Job{ID: i + 1, Prop: id, Profile: profiles[i%len(profiles)], Seed: seed*1000003 + int64(i), Tier: tier, WantLog: i < 3*len(profiles)}
 			if racePass {
 				j.RaceFiles = anchorFiles(vdir, id)
+				if len(spec.RaceFiles) > 0 {
+					j.RaceFiles = spec.RaceFiles
+				}
 			}
 			if spec.Cells > 0 {
 				j.Knobs = map[string]int{"cell": i % spec.Cells}
